@@ -31,6 +31,7 @@ from props import front_stream
 
 STACK = c02.STACK
 FUEL = c02.FUEL
+ESC_TIMEOUT = [20]     # seconds for one escalated / switched model re-run (quick: 20, thorough: 150)
 RESOURCE_WORDS = ('memory allocation', 'capacity overflow', 'allocation failed', 'alloc')
 
 
@@ -66,6 +67,12 @@ def gen_sources(rng, tier):
         out.append(('c02corpus', p[1].encode('utf-8')))
     for s in front_stream.load_corpus():
         out.append(('frontcorpus', s))
+    pc = os.path.join(vlib.VERIF, 'corpus', 'pipeline_sources.txt')
+    if os.path.exists(pc):
+        import ast
+        for line in open(pc, 'rb').read().split(b'\n'):
+            if line and not line.startswith(b'#'):
+                out.append(('corpus', ast.literal_eval(line.decode('ascii'))))
     upass, ufail = ui_files('pass'), ui_files('fail')
     for name, b in (rng.sample(upass, min(len(upass), 70)) if quick else upass):
         out.append(('ui-pass', b))
@@ -133,7 +140,9 @@ def model_decided(model_exe, src, first, impl_c, bfs=0, tst=0):
             fuel *= 8
         else:
             return c
-        c = canon_model(run_model(model_exe, [src], timeout=90, fuel=fuel, limit=limit, bfs=bfs, tst=tst)[0])
+        c = canon_model(run_model(model_exe, [src], timeout=ESC_TIMEOUT[0], fuel=fuel, limit=limit, bfs=bfs, tst=tst)[0])
+        if c[0] == 'undecided':
+            return c
     if c[0] == 'fuel':
         return ('undecided', 'fuel')
     if c[0] == 'error' and c[1] == 'StackOverflow' and not impl_limit:
@@ -154,6 +163,7 @@ def crash_key(ev):
 
 def run_pipeline_stream(run, impl_exe, rng, tier, sources=None):
     raise_stack_limit()
+    ESC_TIMEOUT[0] = 20 if tier == 'quick' else 150
     model_exe = vlib.build_model('pipeline')
     srcs = sources if sources is not None else gen_sources(rng, tier)
     impl_lines = ['p%d\teval\tstack=%x\t%s' % (i, STACK, hxl(list(s))) for i, (k, s) in enumerate(srcs)]
@@ -222,7 +232,7 @@ def run_pipeline_stream(run, impl_exe, rng, tier, sources=None):
     for kind, src, ic, mc, replay in disagreements:
         key = None
         for (bfs, tst), k in c02.KNOWN_DEVIATIONS.items():
-            first = run_model(model_exe, [src], timeout=90, bfs=bfs, tst=tst)[0]
+            first = run_model(model_exe, [src], timeout=ESC_TIMEOUT[0], bfs=bfs, tst=tst)[0]
             m2 = model_decided(model_exe, src, first, ic, bfs=bfs, tst=tst)
             if m2[0] in ('value', 'error') and c02.same_outcome(ic, m2):
                 key = k
